@@ -10,6 +10,7 @@ import (
 	"fmt"
 	"os"
 	"path/filepath"
+	"runtime"
 	"sort"
 	"strconv"
 	"strings"
@@ -25,9 +26,10 @@ type c12Scenario struct {
 	Reader    string
 	R         int
 	Undamaged bool
-	Combine   bool // file faults are injected in addition to the reader's misbehaviour
+	Combine   bool     // file faults are injected in addition to the reader's misbehaviour
 	Before    []c12Put // healthy Puts performed (in the same process) before the Put under test
 	After     []c12Put // healthy Puts performed after it, before the lookups
+	API       string   // "" = Put, "putbytes" = PutBytes (the source cannot misbehave)
 }
 
 type c12Put struct {
@@ -46,6 +48,16 @@ func (p *c12Plan) String() string {
 		return "none"
 	}
 	return fmt.Sprintf("%d:%s:%d", p.K, p.Kind, p.J)
+}
+
+func apiName(api string) string {
+	switch api {
+	case "putbytes":
+		return "PutBytes"
+	case "putnoverify":
+		return "PutNoVerify"
+	}
+	return "Put"
 }
 
 func idHex(i int) string { return hex.EncodeToString(ids[i%len(ids)][:]) }
@@ -188,6 +200,8 @@ func c12Scenarios(tier string) []c12Scenario {
 			{"overwrite", map[string][]byte{"a:" + idHex(0): entryBytes(0, other[si], 1700000000000000007), "d:" + outHex(other[si]): other[si]}},
 			{"same", map[string][]byte{"a:" + idHex(0): entryBytes(0, d, 1700000000000000008), "d:" + outHex(d): d}},
 			{"partial", map[string][]byte{"d:" + outHex(d): d[:len(d)/2]}},
+			// the output of the faulty Put is complete already and named by another id
+			{"shared", map[string][]byte{"a:" + idHex(1): entryBytes(1, d, 1700000000000000012), "d:" + outHex(d): d}},
 		}
 		for _, pr := range pres {
 			for _, spec := range []string{"err1", "err2", "eof2", "diff2"} {
@@ -210,11 +224,12 @@ func c12Scenarios(tier string) []c12Scenario {
 
 type c12Runner struct {
 	f       *common.Flags
-	res     *common.Result
+	res     sink
 	m       *mdl
 	w       *worker
 	dir     string
 	touched map[string]bool
+	prefix  string // key prefix of the findings ("c12" unless another property's run borrows the machinery)
 }
 
 func (rn *c12Runner) materialize(pre map[string][]byte) {
@@ -334,6 +349,9 @@ func (rn *c12Runner) runCase(sc *c12Scenario, plan *c12Plan, pre []wLookup, comp
 			if r.Res != "ok" && out.impl == "" {
 				out.impl, out.oname = fmt.Sprintf("a healthy Put(id%d) of the history failed: %s", bp.ID, r.Err), "healthy-put-failed"
 			}
+			if r.FdLeak != "" && out.impl == "" {
+				out.impl, out.oname = fmt.Sprintf("a healthy Put(id%d) of the history returned with descriptors still open: %s", bp.ID, r.FdLeak), "fd-baseline"
+			}
 			tms = append(tms, entryTm(r.Log))
 		}
 		return tms, true
@@ -349,7 +367,7 @@ func (rn *c12Runner) runCase(sc *c12Scenario, plan *c12Plan, pre []wLookup, comp
 			pre = lk0.Lookups
 		}
 	}
-	req := map[string]any{"cmd": "put", "id": idHex(sc.ID), "data": hex.EncodeToString(sc.Data), "reader": sc.Reader, "r": sc.R}
+	req := map[string]any{"cmd": "put", "id": idHex(sc.ID), "data": hex.EncodeToString(sc.Data), "reader": sc.Reader, "r": sc.R, "api": sc.API}
 	if plan != nil {
 		req["plan"] = map[string]any{"k": plan.K, "kind": plan.Kind, "j": plan.J}
 	}
@@ -369,6 +387,10 @@ func (rn *c12Runner) runCase(sc *c12Scenario, plan *c12Plan, pre []wLookup, comp
 	}
 	if resp.Res == "panic" {
 		out.impl, out.oname = "Put panicked: "+resp.Err, "no-panic"
+	}
+	if resp.FdLeak != "" && resp.Res != "crash" && out.impl == "" {
+		// the call returned (successfully or with an error): it must have closed what it opened
+		out.impl, out.oname = fmt.Sprintf("%s returned (%s) with descriptors still open: %s", apiName(sc.API), resp.Res, resp.FdLeak), "fd-baseline"
 	}
 	allIDs := []string{idHex(0), idHex(1), idHex(2), idHex(3)}
 	lk, err := rn.w.call(map[string]any{"cmd": "lookups", "ids": allIDs})
@@ -401,6 +423,8 @@ func (rn *c12Runner) runCase(sc *c12Scenario, plan *c12Plan, pre []wLookup, comp
 		}
 	}
 	if resp.Res == "ok" && sc.Undamaged {
+		// (a pre-damaged output AND a failing operation are two faults at once: an over-long output whose
+		// Stat fails is rewritten in place without O_TRUNC and keeps its tail -- outside the statement)
 		want := "F " + showBytes(sc.Data) + " " + outHex(sc.Data) + " "
 		if !strings.HasPrefix(lk.Lookups[sc.ID].GetBytes, want) && out.impl == "" {
 			out.impl, out.oname = "Put returned nil but GetBytes does not return the data: "+trunc(lk.Lookups[sc.ID].GetBytes), "put-then-getbytes"
@@ -513,8 +537,12 @@ func (rn *c12Runner) runCase(sc *c12Scenario, plan *c12Plan, pre []wLookup, comp
 	if plan != nil {
 		k, kind, j = plan.K, plan.Kind, plan.J
 	}
-	reqs = append(reqs, fmt.Sprintf("putf %d %s %d %s %d %d %d %s %d %s", k, kind, j, idHex(sc.ID), entryTm(resp.Log), seek1, ok1,
-		rn.m.ref(pass1), seek2, strings.Join(crefs, " ")))
+	if sc.API == "putbytes" {
+		reqs = append(reqs, fmt.Sprintf("putbf %d %s %d %s %d %s", k, kind, j, idHex(sc.ID), entryTm(resp.Log), strings.Join(crefs, " ")))
+	} else {
+		reqs = append(reqs, fmt.Sprintf("putf %d %s %d %s %d %d %d %s %d %s", k, kind, j, idHex(sc.ID), entryTm(resp.Log), seek1, ok1,
+			rn.m.ref(pass1), seek2, strings.Join(crefs, " ")))
+	}
 	// the healthy Puts that follow (their hash values are supplied on demand)
 	for i, ap := range sc.After {
 		var cr []string
@@ -535,12 +563,17 @@ func (rn *c12Runner) runCase(sc *c12Scenario, plan *c12Plan, pre []wLookup, comp
 		return
 	}
 	// result and trace
-	if i := strings.LastIndex(ans[nSetup], " | holds="); i >= 0 {
-		if ans[nSetup][i+9:] != "true" && !(sc.Combine && plan != nil) { // two faults at once are outside the statement
-			out.corr = "the boolean form c12_holds_on of the C12 statement is " + ans[nSetup][i+9:] + " on this case (model level)"
+	{
+		body, holds, fds := splitPutAnswer(ans[nSetup])
+		if holds != "" && holds != "true" && !(sc.Combine && plan != nil) { // two faults at once are outside the statement
+			out.corr = "the boolean form c12_holds_on of the C12 statement is " + holds + " on this case (model level)"
 			return
 		}
-		ans[nSetup] = ans[nSetup][:i]
+		if c := fdsDisagree(fds, resp.Res, resp.FdLeak); c != "" {
+			out.corr = c
+			return
+		}
+		ans[nSetup] = body
 	}
 	parts := strings.SplitN(ans[nSetup], " | ", 2)
 	mres := strings.Fields(parts[0])
@@ -596,7 +629,7 @@ func (rn *c12Runner) runCase(sc *c12Scenario, plan *c12Plan, pre []wLookup, comp
 }
 
 func (rn *c12Runner) report(sc *c12Scenario, plan *c12Plan, o c12Outcome) {
-	in := map[string]string{"scenario": sc.Name, "plan": plan.String(), "id": fmt.Sprint(sc.ID), "data_len": fmt.Sprint(len(sc.Data))}
+	in := map[string]string{"scenario": sc.Name, "plan": plan.String(), "id": fmt.Sprint(sc.ID), "data_len": fmt.Sprint(len(sc.Data)), "api": apiName(sc.API)}
 	if len(sc.Data) <= 64 {
 		in["data"] = fmt.Sprintf("%q", sc.Data)
 	}
@@ -607,12 +640,62 @@ func (rn *c12Runner) report(sc *c12Scenario, plan *c12Plan, o c12Outcome) {
 	in["operations"] = strings.Join(tr, " ")
 	if o.impl != "" {
 		rn.res.Violate(common.Violation{Kind: "impl-violation", Oracle: o.oname, Input: in, Detail: o.impl,
-			Key: "c12:" + o.oname + ":" + sc.Name + ":" + plan.String()})
+			Key: rn.keyPrefix() + ":" + o.oname + ":" + sc.Name + ":" + plan.String()})
 	}
 	if o.corr != "" {
 		rn.res.Violate(common.Violation{Kind: "correspondence", Oracle: "faulty-put", Input: in, Detail: o.corr,
-			Key: "c12:corr:" + sc.Name + ":" + plan.String()})
+			Key: rn.keyPrefix() + ":corr:" + sc.Name + ":" + plan.String()})
 	}
+}
+
+// splitPutAnswer splits the model's answer to putf / putbf: "<result> | <operations> | holds=<bool> fds=<n|stopped>".
+func splitPutAnswer(a string) (body, holds, fds string) {
+	i := strings.LastIndex(a, " | holds=")
+	if i < 0 {
+		return a, "", ""
+	}
+	body = a[:i]
+	for _, f := range strings.Fields(a[i+3:]) {
+		if strings.HasPrefix(f, "holds=") {
+			holds = f[6:]
+		}
+		if strings.HasPrefix(f, "fds=") {
+			fds = f[4:]
+		}
+	}
+	return
+}
+
+// fdsDisagree compares the descriptors the model's call leaves open (fd_leak: a number, or
+// "stopped") with what was measured on the implementation.
+func fdsDisagree(fds, implRes, implLeak string) string {
+	if fds == "" {
+		return ""
+	}
+	if fds == "stopped" {
+		if implRes != "crash" {
+			return "descriptors: the model's run stops, the implementation's call returned (" + implRes + ")"
+		}
+		return ""
+	}
+	if implRes == "crash" {
+		return "descriptors: the implementation's run stops, the model's call returned with " + fds + " descriptors open"
+	}
+	if (fds == "0") != (implLeak == "") {
+		l := implLeak
+		if l == "" {
+			l = "none"
+		}
+		return "descriptors left open by the call: model " + fds + ", implementation: " + l
+	}
+	return ""
+}
+
+func (rn *c12Runner) keyPrefix() string {
+	if rn.prefix != "" {
+		return rn.prefix
+	}
+	return "c12"
 }
 
 // hypotheses of the theorems, checked on the SHA-256 values of the contents of the run
@@ -655,42 +738,169 @@ func checkHashHypotheses(cs [][]byte) (inj, nohybrid bool) {
 	return
 }
 
-func runC12(f *common.Flags, res *common.Result, m *mdl) {
-	shim, real, notes := buildWorkers(f.Work)
-	res.Notes = append(res.Notes, notes...)
-	if os.Getenv("VERIF_CACHE_NO_SHIM") != "" {
-		shim = "" // exercise the fallback route
+// c12AllScenarios: the Put scenarios, the same file-fault scenarios through PutBytes, and the
+// source-reader faults also on a store where the output of the faulty Put is already complete
+// and named by another id.
+func c12AllScenarios(tier string) []c12Scenario {
+	scs := c12Scenarios(tier)
+	var out []c12Scenario
+	out = append(out, scs...)
+	for _, sc := range scs {
+		if sc.Reader != "" || len(sc.Before) > 0 || len(sc.After) > 0 || strings.Contains(sc.Name, "-own/") {
+			continue
+		}
+		pb := sc
+		pb.API = "putbytes"
+		pb.Name = "putbytes:" + sc.Name
+		out = append(out, pb)
 	}
-	if shim == "" {
-		res.Notes = append(res.Notes, "falling back to strace injection on the worker built from the unmodified package")
-		runC12Strace(f, res, real)
-		return
+	return out
+}
+
+// newC12Shard starts a worker and a model process of their own and opens a cache directory.
+func newC12Shard(f *common.Flags, shim string, idx int, rec sink, prefix string) (*c12Runner, func(), error) {
+	m, err := newModel(f.Model)
+	if err != nil {
+		return nil, nil, err
 	}
 	w, err := startWorker(shim)
 	if err != nil {
-		res.Notes = append(res.Notes, "cannot start the shimmed worker: "+err.Error())
-		return
+		m.m.Close()
+		return nil, nil, err
 	}
-	defer w.close()
-	dir := filepath.Join(f.Work, "c12dir")
+	dir := filepath.Join(f.Work, fmt.Sprintf("%sdir%d", prefix, idx))
 	os.MkdirAll(dir, 0o777)
 	if r, err := w.call(map[string]any{"cmd": "open", "dir": dir}); err != nil || r.Res != "ok" {
-		res.Notes = append(res.Notes, "worker cannot open the cache directory")
-		return
+		w.close()
+		m.m.Close()
+		return nil, nil, fmt.Errorf("worker cannot open the cache directory")
 	}
-	rn := &c12Runner{f: f, res: res, m: m, w: w, dir: dir, touched: map[string]bool{}}
-	scs := c12Scenarios(f.Tier)
-	// big contents once
-	var universe [][]byte
+	rn := &c12Runner{f: f, res: rec, m: m, w: w, dir: dir, touched: map[string]bool{}, prefix: prefix}
+	return rn, func() { w.close(); m.m.Close() }, nil
+}
+
+// scenarioAll runs one scenario: without file fault, then with every plan at every operation.
+func (rn *c12Runner) scenarioAll(sc *c12Scenario) {
+	res, w, f := rn.res, rn.w, rn.f
+	big := len(sc.Data) > 50000
+	// lookups of the pre-state (for the frame oracle)
+	rn.materialize(sc.Pre)
+	for _, bp := range sc.Before {
+		if r, err := w.call(map[string]any{"cmd": "put", "id": idHex(bp.ID), "data": hex.EncodeToString(bp.Data)}); err == nil {
+			for _, o := range r.Log {
+				rn.touched[o.Path] = true
+			}
+		}
+	}
+	var pre []wLookup
+	if lk, err := w.call(map[string]any{"cmd": "lookups", "ids": []string{idHex(0), idHex(1), idHex(2), idHex(3)}}); err == nil {
+		pre = lk.Lookups
+	}
+	base := rn.runCase(sc, nil, pre, !(big && sc.API != "") || f.Tier == "thorough")
+	res.Case(sc.Name+":none", true)
+	res.Count("scenario:" + strings.SplitN(sc.Name, "/", 2)[0])
+	res.Count("outcome:" + base.res)
+	if base.impl != "" || base.corr != "" {
+		rn.report(sc, nil, base)
+	}
+	{
+		var tr []string
+		for _, x := range base.log {
+			tr = append(tr, shimOpString(x))
+		}
+		res.Sample(map[string]any{"scenario": sc.Name, "result": base.res, "operations": strings.Join(tr, " ")})
+	}
+	if sc.Reader != "" {
+		res.Count("reader-fault:" + sc.Reader)
+		if !sc.Combine {
+			return
+		}
+	}
+	for k := 0; k < base.nops; k++ {
+		op := base.log[k]
+		var plans []c12Plan
+		plans = append(plans, c12Plan{k, "fail", 0}, c12Plan{k, "stopbefore", 0}, c12Plan{k, "stopafter", 0})
+		if sc.Combine && op.Name != "write" {
+			plans = plans[1:] // two faults at once: stops (and torn writes) only
+		}
+		switch op.Name {
+		case "write":
+			js := []int{0, 1, op.N / 2, op.N - 1}
+			if strings.HasSuffix(op.Path, "-a") && strings.Contains(sc.Name, "overwrite") {
+				// inside the id, inside the output id, right after it, inside the size and the time fields
+				js = append(js, 40, 100, 132, 133, 140, 150, 153, 160)
+			}
+			for _, j := range js {
+				if j >= 0 && j < op.N {
+					plans = append(plans, c12Plan{k, "short", j}, c12Plan{k, "torn", j})
+				}
+			}
+		case "readall":
+			for _, j := range []int{0, len(sc.Data) / 2, len(sc.Data)} {
+				plans = append(plans, c12Plan{k, "short", j})
+			}
+		default:
+			if k%3 == 0 {
+				plans = append(plans, c12Plan{k, "short", 1}, c12Plan{k, "torn", 1})
+			}
+		}
+		seenPlan := map[string]bool{}
+		for pi := range plans {
+			pl := &plans[pi]
+			if seenPlan[pl.String()] {
+				continue
+			}
+			if !sc.Undamaged && f.Tier != "thorough" && (pl.Kind == "stopbefore" || (pl.Kind == "short" && pl.J > 1)) {
+				continue // pre-damaged outputs (checksum oracles only): a thinner set of plans in the quick tier
+			}
+			seenPlan[pl.String()] = true
+			// the model is expensive on the 100000-byte content: compare it on a subset there
+			cmp := !big || f.Tier == "thorough" || (sc.API == "" && (pl.Kind == "stopafter" || (pl.Kind == "fail" && k%2 == 0) || (pl.Kind == "torn" && pl.J > 1)))
+			o := rn.runCase(sc, pl, pre, cmp)
+			res.Case(sc.Name+":"+pl.String(), true)
+			res.Count("fault:" + pl.Kind)
+			res.Count("at:" + op.Name)
+			res.Count("outcome:" + o.res)
+			res.Count("api:" + apiName(sc.API))
+			if !cmp {
+				res.Count("oracles-only")
+			}
+			if o.impl != "" || o.corr != "" {
+				rn.report(sc, pl, o)
+			}
+		}
+	}
+}
+
+// c12Shards: how many units run at once (each a worker process and a model process)
+func c12Shards() int {
+	n := 6
+	if c := runtime.NumCPU() / 2; c < n {
+		n = c
+	}
+	if n < 1 {
+		n = 1
+	}
+	if v, err := strconv.Atoi(os.Getenv("VERIF_CACHE_SHARDS")); err == nil && v > 0 {
+		n = v
+	}
+	return n
+}
+
+// defineBig teaches a model process the big contents of the scenarios (referred to as @name:off:len).
+func defineBig(m *mdl, scs []c12Scenario) (universe [][]byte) {
 	seen := map[string]bool{}
 	for i := range scs {
-		for _, c := range append([][]byte{scs[i].Data}, func() [][]byte {
-			var v [][]byte
-			for _, c := range scs[i].Pre {
-				v = append(v, c)
-			}
-			return v
-		}()...) {
+		cs := [][]byte{scs[i].Data}
+		var keys []string
+		for k := range scs[i].Pre {
+			keys = append(keys, k)
+		}
+		sort.Strings(keys)
+		for _, k := range keys {
+			cs = append(cs, scs[i].Pre[k])
+		}
+		for _, c := range cs {
 			if !seen[string(c)] {
 				seen[string(c)] = true
 				universe = append(universe, c)
@@ -700,6 +910,27 @@ func runC12(f *common.Flags, res *common.Result, m *mdl) {
 			}
 		}
 	}
+	return universe
+}
+
+func runC12(f *common.Flags, res *common.Result, m *mdl) {
+	shim, real, notes := buildWorkers(f.Work)
+	res.Notes = append(res.Notes, notes...)
+	if os.Getenv("VERIF_CACHE_NO_SHIM") != "" {
+		shim = "" // exercise the fallback route
+	}
+	if shim == "" {
+		res.Notes = append(res.Notes, "falling back to strace injection on the worker built from the unmodified package")
+		if real != "" {
+			// everything that works on the unmodified package: histories on one Cache value with
+			// misbehaving sources and file-size limits, the descriptor oracle, descriptor exhaustion
+			runC12Histories(f, res, real, false)
+		}
+		runC12Strace(f, res, real)
+		return
+	}
+	scs := c12AllScenarios(f.Tier)
+	universe := defineBig(m, scs)
 	inj, _ := checkHashHypotheses(universe)
 	nhOK, nhAll := 0, 0
 	for i := range scs {
@@ -721,6 +952,17 @@ func runC12(f *common.Flags, res *common.Result, m *mdl) {
 			fmt.Fprintln(os.Stderr, err)
 			os.Exit(2)
 		}
+		if rp.Violation.Input["history"] != "" || rp.Violation.Input["repeat"] != "" {
+			replayC12History(f, res, shim, real, rp.Violation.Input)
+			return
+		}
+		rn, done, err := newC12Shard(f, shim, 0, res, "c12")
+		if err != nil {
+			res.Notes = append(res.Notes, "cannot start the shimmed worker: "+err.Error())
+			return
+		}
+		defer done()
+		defineBig(rn.m, scs)
 		for i := range scs {
 			if scs[i].Name == rp.Violation.Input["scenario"] {
 				var plan *c12Plan
@@ -737,101 +979,56 @@ func runC12(f *common.Flags, res *common.Result, m *mdl) {
 		return
 	}
 
-	for si := range scs {
-		sc := &scs[si]
-		big := len(sc.Data) > 50000
-		// lookups of the pre-state (for the frame oracle)
-		rn.materialize(sc.Pre)
-		for _, bp := range sc.Before {
-			if r, err := w.call(map[string]any{"cmd": "put", "id": idHex(bp.ID), "data": hex.EncodeToString(bp.Data)}); err == nil {
-				for _, o := range r.Log {
-					rn.touched[o.Path] = true
-				}
+	// the scenarios are independent: they run on several shards (each with its own worker, model
+	// process and directory), the most expensive first; the records are merged in scenario order
+	ns := c12Shards()
+	shards := make([]*c12Runner, ns)
+	for i := range shards {
+		rn, done, err := newC12Shard(f, shim, i, nil, "c12")
+		if err != nil {
+			res.Notes = append(res.Notes, "cannot start the shimmed worker: "+err.Error())
+			if i == 0 {
+				return
 			}
+			shards = shards[:i]
+			break
 		}
-		var pre []wLookup
-		if lk, err := w.call(map[string]any{"cmd": "lookups", "ids": []string{idHex(0), idHex(1), idHex(2), idHex(3)}}); err == nil {
-			pre = lk.Lookups
+		defer done()
+		defineBig(rn.m, scs)
+		shards[i] = rn
+	}
+	order := make([]int, len(scs))
+	for i := range order {
+		order[i] = i
+	}
+	cost := func(i int) int {
+		c := len(scs[i].Data)
+		if scs[i].Reader != "" && !scs[i].Combine {
+			c /= 50
 		}
-		base := rn.runCase(sc, nil, pre, true)
-		res.Case(sc.Name+":none", true)
-		res.Count("scenario:" + strings.SplitN(sc.Name, "/", 2)[0])
-		res.Count("outcome:" + base.res)
-		if base.impl != "" || base.corr != "" {
-			rn.report(sc, nil, base)
+		if scs[i].API != "" && c > 50000 {
+			c /= 10
 		}
-		if res.Evaluations%97 == 1 {
-			var tr []string
-			for _, x := range base.log {
-				tr = append(tr, shimOpString(x))
-			}
-			res.Sample(map[string]any{"scenario": sc.Name, "result": base.res, "operations": strings.Join(tr, " ")})
-		}
-		if sc.Reader != "" {
-			res.Count("reader-fault:" + sc.Reader)
-			if !sc.Combine {
-				continue
-			}
-		}
-		for k := 0; k < base.nops; k++ {
-			op := base.log[k]
-			var plans []c12Plan
-			plans = append(plans, c12Plan{k, "fail", 0}, c12Plan{k, "stopbefore", 0}, c12Plan{k, "stopafter", 0})
-			if sc.Combine && op.Name != "write" {
-				plans = plans[1:] // two faults at once: stops (and torn writes) only
-			}
-			switch op.Name {
-			case "write":
-				js := []int{0, 1, op.N / 2, op.N - 1}
-				if strings.HasSuffix(op.Path, "-a") && strings.HasPrefix(sc.Name, "overwrite") {
-					// inside the id, inside the output id, right after it, inside the size and the time fields
-					js = append(js, 40, 100, 132, 133, 140, 150, 153, 160)
-				}
-				for _, j := range js {
-					if j >= 0 && j < op.N {
-						plans = append(plans, c12Plan{k, "short", j}, c12Plan{k, "torn", j})
-					}
-				}
-			case "readall":
-				for _, j := range []int{0, len(sc.Data) / 2, len(sc.Data)} {
-					plans = append(plans, c12Plan{k, "short", j})
-				}
-			default:
-				if k%3 == 0 {
-					plans = append(plans, c12Plan{k, "short", 1}, c12Plan{k, "torn", 1})
-				}
-			}
-			seenPlan := map[string]bool{}
-			for pi := range plans {
-				pl := &plans[pi]
-				if seenPlan[pl.String()] {
-					continue
-				}
-				if !sc.Undamaged && f.Tier != "thorough" && (pl.Kind == "stopbefore" || (pl.Kind == "short" && pl.J > 1)) {
-					continue // pre-damaged outputs (checksum oracles only): a thinner set of plans in the quick tier
-				}
-				seenPlan[pl.String()] = true
-				// the model is expensive on the 100000-byte content: compare it on a subset there
-				cmp := !big || f.Tier == "thorough" || pl.Kind == "stopafter" || (pl.Kind == "fail" && k%2 == 0) || (pl.Kind == "torn" && pl.J > 1)
-				o := rn.runCase(sc, pl, pre, cmp)
-				res.Case(sc.Name+":"+pl.String(), true)
-				res.Count("fault:" + pl.Kind)
-				res.Count("at:" + op.Name)
-				res.Count("outcome:" + o.res)
-				if !cmp {
-					res.Count("oracles-only")
-				}
-				if o.impl != "" || o.corr != "" {
-					rn.report(sc, pl, o)
-				}
-			}
+		return c
+	}
+	sort.SliceStable(order, func(a, b int) bool { return cost(order[a]) > cost(order[b]) })
+	recs := make([]*recorder, len(scs))
+	parallelUnits(len(shards), order, func(sh, u int) {
+		recs[u] = newRecorder()
+		shards[sh].res = recs[u]
+		shards[sh].scenarioAll(&scs[u])
+	})
+	for _, r := range recs {
+		if r != nil {
+			r.mergeInto(res)
 		}
 	}
+	nh := runC12Histories(f, res, shim, true)
 	if f.Tier == "thorough" && f.Replay == "" {
 		// independently of the shim: real SIGKILLs / EIOs on the unmodified binary
 		if n := straceSweep(f, res, real); n >= 0 {
 			res.Notes = append(res.Notes, fmt.Sprintf("strace sweep on the unmodified binary: %d runs (SIGKILL / EIO at the k-th invocation of each of %s, per thread), direct oracles only", n, straceCalls))
 		}
 	}
-	res.Rule = fmt.Sprintf("%d scenarios (an entry whose output file was removed, as Trim may do, with a source that delivers other bytes of the same length on the second pass AND a stop at every operation; new entry, overwrite, same content again, output shared with another id, partial output left by an earlier interruption, pre-damaged outputs: truncated / bit-flipped / longer / emptied; sizes 0, 1, 2, 5000, 100000; source-reader faults: error at offset r in either pass, early EOF, different bytes on the second pass, Seek failures); in each scenario without reader fault EVERY file operation of the real Put (observed through the os shim) is made to fail, to be a short write / short read, and the run is stopped before it, after it and in the middle of a write; after each, all lookups run in a fresh Cache value; compared with the faulty semantics of the model: result, operation trace, all lookups, contents of all files; direct oracles: SHA-256 of GetBytes, size of GetFile's file, from undamaged starts SHA-256 of GetFile's file, unrelated ids unchanged, no panic", len(scs))
+	res.Rule = fmt.Sprintf("%d scenarios (an entry whose output file was removed, as Trim may do, with a source that delivers other bytes of the same length on the second pass AND a stop at every operation; new entry, overwrite, same content again, output shared with another id, partial output left by an earlier interruption, pre-damaged outputs: truncated / bit-flipped / longer / emptied; sizes 0, 1, 2, 5000, 100000; source-reader faults: error at offset r in either pass, early EOF, different bytes on the second pass, Seek failures, each also on a store where the output of the faulty Put is already complete and named by another id; every scenario without reader fault through Put AND through PutBytes); in each scenario without reader fault EVERY file operation of the real Put / PutBytes (observed through the os shim, os.WriteFile being open+write+close) is made to fail, to be a short write / short read, and the run is stopped before it, after it and in the middle of a write; after each, all lookups run in a fresh Cache value; compared with the faulty semantics of the model: result, operation trace, all lookups, contents of all files; direct oracles: SHA-256 of GetBytes, size of GetFile's file, from undamaged starts SHA-256 of GetFile's file, unrelated ids unchanged, no panic, every call that returns leaves the process with the descriptors it had (/proc/self/fd before and after, collector off); then %s", len(scs), nh)
 }
